@@ -159,6 +159,27 @@ def proof_obligations(prop, thorough):
 # ---------------------------------------------------------------------------------------------
 # correspondence
 
+def mine_keys():
+    """string literals of /repo/src (1..16 printable bytes): keys the code mentions by name"""
+    keys = set()
+    for d, _, fs in os.walk("/repo/src"):
+        for f in fs:
+            if f.endswith(".rs"):
+                try:
+                    text = open(os.path.join(d, f), errors="replace").read()
+                except OSError:
+                    continue
+                for m in re.finditer(r'b?"([A-Za-z0-9_.:\-]{1,16})"', text):
+                    keys.add(m.group(1))
+    os.makedirs(OUT, exist_ok=True)
+    path = os.path.join(OUT, "mined_keys.txt")
+    with open(path, "w") as fh:
+        for k in sorted(keys):
+            fh.write(k.encode().hex() + "\n")
+    os.environ["VERIF_EXTRA_KEYS"] = path
+    return sorted(keys)
+
+
 def build_harness():
     env = dict(os.environ, CARGO_NET_OFFLINE="true")
     lock = os.path.join(HARNESS, "Cargo.lock")
@@ -332,6 +353,7 @@ def main():
         po = proof_obligations(prop, tier == "thorough")
 
     # 2. the tie: rebuild the harness against /repo's working tree
+    mined = mine_keys()
     rc, out = build_harness()
     harness_ok = rc == 0
     results = []
@@ -493,6 +515,7 @@ def main():
             "class_distribution": dict(sorted(dist.items(), key=lambda kv: -kv[1])[:60]),
             "families": [{k: r.get(k) for k in ("fam", "seed", "gen_s", "model_s", "stats")} for r in results],
             "escalated_search": searched,
+            "keys_mined_from_source": mined,
             "samples": samples,
         },
         "assumptions": [
